@@ -294,8 +294,75 @@ def fit_vector_agreement(ctx, rule="R18.5"):
     ctx.check(opt == ["spo.minimize", "spo.minimize_scalar"], rule, site, "one free parameter -> scalar minimiser, several -> general minimiser", "optimisers")
 
 
+def raw_data_discipline(ctx, rule="R18.7"):
+    """Typestate RAW -> CHECKED of the `data` argument in the public Normalizer methods: before `data = self._check_input(data, ...)`
+    the raw input (which may contain NaN / out-of-range values that count as missing) may only be handed to _check_input or to another
+    public method (which checks for itself); sizes, sums and the private kernels must see the checked samples only - otherwise the sample
+    count of the likelihood constant and of its kernel disagree as soon as a value is missing."""
+    prog = ctx.prog
+    ci = prog.cls(NB, "Normalizer")
+    n = 0
+    for name, fn in sorted(ci.methods.items()):
+        if name.startswith("_") or "data" not in [a.arg for a in fn.args.args]:
+            continue
+        site = "%s::Normalizer.%s" % (NB, name)
+        parents = {}
+        for p in ast.walk(fn):
+            for c in ast.iter_child_nodes(p):
+                parents[c] = p
+        checked_at = None
+        for st in fn.body:
+            if isinstance(st, ast.Assign) and isinstance(st.value, ast.Call) and ast.unparse(st.value.func) == "self._check_input" \
+                    and any(isinstance(t, ast.Name) and t.id == "data" for tt in st.targets for t in ast.walk(tt)):
+                checked_at = st._ord
+                break
+        inner_fns = [x for x in ast.walk(fn) if isinstance(x, (ast.FunctionDef, ast.Lambda)) and x is not fn]
+        for node in ast.walk(fn):
+            if not (isinstance(node, ast.Name) and node.id == "data" and isinstance(node.ctx, ast.Load)):
+                continue
+            if any(any(y is node for y in ast.walk(x)) for x in inner_fns):
+                continue
+            n += 1
+            if checked_at is not None and node._ord > checked_at and not (parents.get(node) is not None and _in_check_call(node, parents)):
+                continue  # CHECKED
+            # RAW use: allowed sinks
+            p = parents.get(node)
+            ok = False
+            while p is not None and not isinstance(p, ast.stmt):
+                if isinstance(p, ast.Call):
+                    f = ast.unparse(p.func)
+                    if f == "self._check_input" or (f.startswith("self.") and not f[5:].startswith("_") and "." not in f[5:]):
+                        ok = True
+                    break
+                if isinstance(p, ast.Compare) and all(isinstance(op, (ast.Is, ast.IsNot)) for op in p.ops):
+                    ok = True
+                    break
+                if isinstance(p, ast.keyword) and p.arg == "args":
+                    ok = True
+                    break
+                p = parents.get(p)
+            if not ok:
+                stmt = node
+                while not isinstance(stmt, ast.stmt):
+                    stmt = parents[stmt]
+                ctx.violation(rule, site, "the raw `data` (before _check_input removed NaN / out-of-range samples) is used in `%s`" % norm_stmt(stmt)[:100], "raw-use:" + norm_stmt(stmt)[:60])
+    ctx.floor(rule, "uses of `data` in public Normalizer methods", n, 10)
+    ctx.ok(rule, NB + "::Normalizer", "raw data reaches only _check_input or public methods; everything else sees the checked samples (%d uses)" % n)
+
+
+def _in_check_call(node, parents):
+    p = parents.get(node)
+    while p is not None and not isinstance(p, ast.stmt):
+        if isinstance(p, ast.Call) and ast.unparse(p.func) == "self._check_input":
+            return True
+        p = parents.get(p)
+    return False
+
+
 def run(ctx):
     from ..small import none_default_rule
+
+    raw_data_discipline(ctx)
 
     none_default_rule(ctx, "R18.6", ["normalizer/"], 5)
     fit_vector_agreement(ctx)
